@@ -1305,6 +1305,13 @@ class Evaluator:
             if all(x[0] == "cls" for x in kinds):
                 return FALSE
             return None
+        if v[0] in ("cls", "fn", "lambda"):
+            # a class object / function object is not an instance of a data type (str, int, ..., list) nor of a package class that is not a metaclass
+            if all(x[0] == "global" and x[1] in ("str", "int", "float", "bytes", "list", "tuple", "dict", "set", "bool") for x in kinds):
+                return FALSE
+            if v[0] == "cls" and all(x[0] == "global" and x[1] == "type" for x in kinds):
+                return TRUE
+            return None
         if v[0] == "new" or (v[0] == "call" and isinstance(v[1], tuple) and v[1][0] == "cls"):
             c = self.model.maybe_cls(v[1] if v[0] == "new" else v[1][1])
             if c is None:
@@ -1449,6 +1456,14 @@ class Evaluator:
                 kwargs.append((kw.arg, self.expr(kw.value, fr)))
         if isinstance(e.func, ast.Name) and len(args) >= 1 and not kwargs and not any(a[0] == "star" for a in args):
             callee = fr.env.get(e.func.id)
+            if callee is None and e.func.id not in fr.env:
+                # a module-level constant bound to such a callable (``READ_X = attrgetter('x')``)
+                tgt_ = self.model.lookup_symbol(fr.module, e.func.id)
+                if isinstance(tgt_, tuple) and tgt_[0] == "const" and isinstance(tgt_[1], ast.Call):
+                    try:
+                        callee = self.expr(tgt_[1], Frame(None, tgt_[2], {}, None, fr.depth + 1))
+                    except Unsupported:
+                        callee = None
             if callee is not None and callee[0] == "call" and (callee[1] in ("partial", "attrgetter", ("global", "partial"), ("global", "attrgetter"))
                                                                   or (isinstance(callee[1], tuple) and callee[1][-1:] in (("partial",), ("attrgetter",)))):
                 # a local name bound to ``partial(..)`` / ``attrgetter(..)`` is that callable
@@ -1507,6 +1522,13 @@ class Evaluator:
                     return ("dict", tuple((("const", k), v) for k, v in kwargs))
                 if n == "getattr" and len(args) in (2, 3) and not kwargs and args[1][0] == "const" and isinstance(args[1][1], str) and len(args) == 2:
                     return self.attr(args[0], args[1][1], fr)
+                if n in ("max", "min") and not kwargs and len(args) == 1:
+                    # max / min of a display of known length (possibly held in a local name) is max / min of its items
+                    a0 = _plain_display(args[0])
+                    if a0[0] in ("list", "tuple") and len(a0[1]) >= 2 and not any(x[0] == "star" for x in a0[1]):
+                        args = list(a0[1])
+                    elif a0[0] in ("list", "tuple") and len(a0[1]) == 1 and a0[1][0][0] != "star":
+                        return a0[1][0]
                 if n in ("max", "min") and not kwargs and len(args) >= 2:
                     nums = [number(a) for a in args]
                     if all(x is not None for x in nums):
@@ -1641,6 +1663,24 @@ class Evaluator:
                 res.append(Outcome(o.cond, "return", NONE, d))
         return self.merge(res) if res else None
 
+    _OPERATOR_FUNCS = {"add": ast.Add, "iadd": ast.Add, "concat": ast.Add, "sub": ast.Sub, "mul": ast.Mult, "truediv": ast.Div, "floordiv": ast.FloorDiv, "mod": ast.Mod,
+                       "or_": ast.BitOr, "and_": ast.BitAnd, "xor": ast.BitXor, "lshift": ast.LShift, "rshift": ast.RShift}
+
+    def _apply_binary(self, f: Term, a: Term, b: Term, fr: Frame) -> Optional[Term]:
+        """f(a, b) for the binary callables handed to ``reduce``: the functions of ``operator`` and two-parameter lambdas / package functions"""
+        name = None
+        if f[0] == "global":
+            name = f[1]
+        elif f[0] == "attr" and f[1] in (("global", "operator"),):
+            name = f[2]
+        if name in self._OPERATOR_FUNCS:
+            return self.binop(self._OPERATOR_FUNCS[name](), a, b)
+        if name in ("max", "min"):
+            return (name, tuple(sorted([a, b], key=repr)))
+        if f[0] in ("lambda", "fn", "localdef"):
+            return self.apply_callable(f, a, fr, (b,))
+        return None
+
     def apply_callable(self, f: Term, arg: Term, fr: Frame, more: Tuple[Term, ...] = ()) -> Optional[Term]:
         more = list(more)
         if more and not (f[0] in ("cls", "fn", "attr", "localdef") or (f[0] == "lambda" and f[1] in self.lambdas)):
@@ -1718,6 +1758,12 @@ class Evaluator:
                         return self.call_function(fs[0], f[1], bc, [arg] + more, [], fr)
                     finally:
                         self._via_callable = False
+            if not more and f[2] == "__contains__":
+                return self.compare("in", arg, f[1], fr)
+            if not more and f[2] == "__eq__":
+                return self.compare("==", f[1], arg, fr)
+            if not more and f[2] == "__ne__":
+                return self.compare("!=", f[1], arg, fr)
             return ("call", f, (arg,) + tuple(more), ())
         return None
 
@@ -1730,6 +1776,20 @@ class Evaluator:
         tail2 = ".".join(fname.split(".")[-2:])
         if isinstance(e.func, ast.Name) and self.model.lookup_symbol(fr.module, e.func.id) is not None:
             return None     # a package symbol of that name
+        if short == "reduce" and len(args) in (2, 3):
+            # functools.reduce(f, <display of known length>[, init]) is the left fold it abbreviates
+            seq = args[1]
+            while seq[0] == "var" and len(seq) == 4:
+                seq = seq[3]
+            if seq[0] in ("list", "tuple") and not any(x[0] == "star" for x in seq[1]) and (seq[1] or len(args) == 3) and len(seq[1]) <= 16:
+                items = ([args[2]] if len(args) == 3 else []) + list(seq[1])
+                acc = items[0]
+                for x in items[1:]:
+                    acc = self._apply_binary(args[0], acc, x, fr)
+                    if acc is None:
+                        return None
+                return acc
+            return None
         if short == "map" and len(args) > 2:
             # map(f, xs, repeat(c), ...) is [f(x, c, ...) for x in xs]
             def rep_of(a):
@@ -1874,7 +1934,53 @@ class Evaluator:
                 return self.inline(f, bound, self_term, self_cls, fr)
             except Unsupported:
                 pass
+            if is_private_helper(f) and f.kind in ("function", "staticmethod") and not getattr(self, "_in_builder_eval", False):
+                v = self._eval_builder_by_paths(f, bound)
+                if v is not None:
+                    return v
         return canon
+
+    def _eval_builder_by_paths(self, f: FunctionInfo, bound: Dict[str, Term]) -> Optional[Term]:
+        """A helper that BUILDS a table from literal arguments (a loop over a display filling a dict / list, with tests decided per item) is the display
+        it builds: read path by path with the loops unrolled; accepted only when exactly one path is feasible and its condition is decided."""
+        if not any(_plain_display(v)[0] in ("list", "tuple", "dict") for v in bound.values()):
+            return None
+        from .paths import PathEnumerator
+        sub = Evaluator(self.model, inline_methods=self.inline_methods, opaque=set(self.opaque))
+        sub._in_builder_eval = True
+        try:
+            pe_ = PathEnumerator(sub)
+            pe_.unroll_limit = 48
+            ps = pe_.function_paths(f, args=dict(bound))
+        except (Unsupported, RecursionError):
+            return None
+        except Exception:
+            return None
+        ps = [p for p in ps if p.exit in ("return", "raise", "fall")]
+        if len(ps) != 1 or ps[0].exit != "return" or ps[0].cond != TRUE or ps[0].value is None:
+            return None
+        p = ps[0]
+        if any(e.kind in ("loop", "while") for e in p.events):
+            return None
+        v = p.value
+        if v[0] == "var" and len(v) == 4 and v[3] in (("dict", ()), ("call", "dict", (), ())):
+            entries: List[Tuple[Term, Term]] = []
+            for e in p.events:
+                if e.kind == "store" and e.term is not None and e.term[0] == "store" and e.term[1][:3] == v[:3]:
+                    if e.term[2][0] != "index":
+                        return None
+                    k_ = e.term[2][1]
+                    entries = [(a, b) for a, b in entries if a != k_] + [(k_, e.term[3])]
+                elif e.kind == "effect" and e.term is not None and e.term[0] == "call" and isinstance(e.term[1], tuple) and e.term[1][0] == "attr" and e.term[1][1][:3] == v[:3]:
+                    return None
+            return ("dict", tuple(entries))
+        if v[0] == "var" and len(v) == 4 and v[3][0] == "list":
+            from .listflow import concrete_list
+            items = concrete_list(p, v)
+            return ("list", tuple(items)) if items is not None else None
+        if v[0] in ("dict", "list", "tuple", "new", "const", "lin"):
+            return v
+        return None
 
     def construct(self, c: ClassInfo, args: List[Term], kwargs: List[Tuple[str, Term]], fr: Frame) -> Term:
         """Constructor call -> ('new', Class, ((field, value), ...)) with positional arguments mapped to the
@@ -1945,7 +2051,8 @@ def _listy(t: Term) -> bool:
 def is_private_helper(f: FunctionInfo) -> bool:
     """``_name`` (single leading underscore): an implementation detail of its caller, not an interface the rules name.  Such helpers are
     always seen through (extracting a block into a private helper does not change what the caller does)."""
-    return f.name.startswith("_") and not f.name.startswith("__") and f.kind in ("method", "staticmethod", "classmethod", "function")
+    from .model import is_helper_name
+    return is_helper_name(f.name) and f.kind in ("method", "staticmethod", "classmethod", "function")
 
 
 def _has_loop(node: ast.AST) -> bool:
